@@ -40,86 +40,46 @@
   * `discrete_distinguishable`  `moore A'` discrete ⇒ the states of `A'` have pairwise different
                              residual languages
   * `check_minimized_sound`  the four clauses above from `checkMinimized A A' = true`
-  * `mooreAbs_sound'`/`mooreAbs_complete'`  the abstract statements behind op `hopcroft`
+  * `hopcroft_spec_sound`/`hopcroft_spec_complete`  the abstract statements behind op `hopcroft`
   * `refine_block_spec` …    see the end of the file
-  * `quotient_passes_check_partial`  non-vacuity of the checker on concrete automata only; the
-                             general statement (for every complete `A`, `checkMinimized A
-                             (quotient A (moore A)) = true`) is NOT proved; it is tested on every
-                             generated automaton by op `quotient_check`.
+  * `quotient_passes_check`  for every complete `A`, `quotient A (moore A)` exists and
+                             `checkMinimized A (quotient A (moore A)) = true` (the checker is not
+                             vacuous for any `A`; also tested per run by op `quotient_check`);
+                             `minimization_exists` combines it with `check_minimized_sound`
 -/
 import SmtModel.Proofs.Minimize
 import SmtModel.Proofs.Partition
+import SmtModel.Proofs.Quotient
 
 namespace Smt.C04
 open Smt Smt.Minimize
 
-/-! ### the Moore partition is the Nerode equivalence of the states -/
+/-! ### the Moore partition is the Nerode equivalence of the states
+  (proofs in `Proofs/Minimize.lean`, stated here) -/
 
 theorem moore_length {A : Automaton} (h : wfAut A = true) :
-    (moore A).length = A.states.length :=
-  mooreAbs_length (covers_closed h (alphabet_covers h).1)
-
-private theorem getD_eq_iff {l : List Nat} {s t : Nat} (hs : s < l.length) (ht : t < l.length) :
-    l.getD s 0 = l.getD t 0 ↔ l[s]? = l[t]? := by
-  simp [List.getD_eq_getElem?_getD, List.getElem?_eq_getElem hs, List.getElem?_eq_getElem ht]
+    (moore A).length = A.states.length := Minimize.moore_length h
 
 /-- T:moore_sound — two states in the same block of `moore A` have the same residual language -/
 theorem moore_sound {A : Automaton} (h : wfAut A = true) {s t : Nat}
     (hs : s < A.states.length) (ht : t < A.states.length)
-    (hb : (moore A)[s]? = (moore A)[t]?) : resid A s = resid A t := by
-  have hcl := covers_closed h (alphabet_covers h).1
-  have hlen := moore_length h
-  have hb' := (getD_eq_iff (hlen ▸ hs) (hlen ▸ ht)).2 hb
-  ext w
-  rw [resid_iff h hs, resid_iff h ht]
-  constructor <;> rintro ⟨hw, hf⟩ <;> refine ⟨hw, ?_⟩ <;>
-    obtain ⟨w', hm, e⟩ := normalize h (alphabet_covers h) hw <;>
-    have key := mooreAbs_sound (fin := finD A) hcl hs ht hb' w' hm <;>
-    have e1 := e s hs <;> have e2 := e t ht <;>
-    simp only [runD] at e1 e2 hf ⊢
-  · rw [← e2, ← key, e1]; exact hf
-  · rw [← e1, key, e2]; exact hf
+    (hb : (moore A)[s]? = (moore A)[t]?) : resid A s = resid A t :=
+  Minimize.moore_sound h hs ht hb
 
 /-- T:moore_complete — two states in different blocks are distinguished by a well-formed string -/
 theorem moore_complete {A : Automaton} (h : wfAut A = true) {s t : Nat}
     (hs : s < A.states.length) (ht : t < A.states.length)
     (hb : (moore A)[s]? ≠ (moore A)[t]?) :
-    ∃ w, WFs w ∧ ¬ (w ∈ resid A s ↔ w ∈ resid A t) := by
-  have hcov := alphabet_covers h
-  have hcl := covers_closed h hcov.1
-  have hlen := moore_length h
-  have hb' : (moore A).getD s 0 ≠ (moore A).getD t 0 :=
-    fun e => hb ((getD_eq_iff (hlen ▸ hs) (hlen ▸ ht)).1 e)
-  obtain ⟨w, hm, hd⟩ := mooreAbs_complete (fin := finD A) hcl hs ht hb'
-  have hw : WFs w := wfs_of_alphabet hcov.1 hm
-  refine ⟨w, hw, ?_⟩
-  rw [resid_iff h hs, resid_iff h ht]
-  simp only [runD, hw, true_and]
-  intro hiff
-  apply hd
-  cases h1 : finD A (run (stepD A) s w) <;> cases h2 : finD A (run (stepD A) t w) <;>
-    simp [h1, h2] at hiff ⊢
+    ∃ w, WFs w ∧ ¬ (w ∈ resid A s ↔ w ∈ resid A t) :=
+  Minimize.moore_complete h hs ht hb
 
 /-- same block ⇔ same residual language -/
 theorem moore_block_iff {A : Automaton} (h : wfAut A = true) {s t : Nat}
     (hs : s < A.states.length) (ht : t < A.states.length) :
-    (moore A)[s]? = (moore A)[t]? ↔ resid A s = resid A t := by
-  constructor
-  · exact moore_sound h hs ht
-  · intro he
-    by_contra hb
-    obtain ⟨w, _, hn⟩ := moore_complete h hs ht hb
-    exact hn (by rw [he])
+    (moore A)[s]? = (moore A)[t]? ↔ resid A s = resid A t :=
+  Minimize.moore_block_iff h hs ht
 
 /-! ### number of blocks -/
-
-private theorem firstOccs_nodup {α : Type} [DecidableEq α] (l : List α) : (firstOccs l).Nodup := by
-  induction l with
-  | nil => simp [firstOccs]
-  | cons x l ih =>
-    simp only [firstOccs, List.nodup_cons, List.mem_filter, decide_eq_true_eq, ne_eq,
-      not_true_eq_false, and_false, not_false_eq_true, true_and]
-    exact ih.filter _
 
 /-- `numBlocks` counts the distinct block ids -/
 theorem numBlocks_eq_card (blk : List Nat) : numBlocks blk = blk.toFinset.card := by
@@ -145,9 +105,9 @@ theorem moore_numBlocks {A : Automaton} (h : wfAut A = true) :
     constructor
     · intro hx
       obtain ⟨i, hi, rfl⟩ := List.getElem_of_mem hx
-      exact ⟨i, hlen ▸ hi, by simp [List.getD_eq_getElem?_getD, List.getElem?_eq_getElem hi]⟩
+      exact ⟨i, by omega, by simp [List.getD_eq_getElem?_getD, List.getElem?_eq_getElem hi]⟩
     · rintro ⟨s, hs, rfl⟩
-      have hs' : s < (moore A).length := hlen ▸ hs
+      have hs' : s < (moore A).length := by omega
       simp [List.getD_eq_getElem?_getD, List.getElem?_eq_getElem hs']
   have e2 : {L : Set (List Nat) | ∃ s, s < A.states.length ∧ L = resid A s} =
       ↑((Finset.range A.states.length).image (fun s => resid A s)) := by
@@ -170,7 +130,7 @@ theorem moore_numBlocks {A : Automaton} (h : wfAut A = true) :
     have hs2 := Finset.mem_range.1 s2.1
     have := (moore_block_iff h hs1 hs2).2 he
     rw [← s1.2, ← s2.2]
-    exact (getD_eq_iff (hlen ▸ hs1) (hlen ▸ hs2)).2 this
+    exact (getD_eq_iff (by omega) (by omega)).2 this
   · intro L hL
     obtain ⟨s, hs, rfl⟩ := Finset.mem_image.1 hL
     have hb : (moore A).getD s 0 ∈
@@ -180,19 +140,19 @@ theorem moore_numBlocks {A : Automaton} (h : wfAut A = true) :
     have sp := Classical.choose_spec (Finset.mem_image.1 hb)
     have hs1 := Finset.mem_range.1 sp.1
     have hs2 := Finset.mem_range.1 hs
-    exact moore_sound h hs1 hs2 ((getD_eq_iff (hlen ▸ hs1) (hlen ▸ hs2)).1 sp.2)
+    exact moore_sound h hs1 hs2 ((getD_eq_iff (by omega) (by omega)).1 sp.2)
 
 /-! ### the abstract statements (op `hopcroft`: `Minimizer::refine` on a table-driven DFA) -/
 
 /-- same block of the Moore partition ⇒ no word over the alphabet distinguishes the states -/
-theorem mooreAbs_sound' {n : Nat} {fin : Nat → Bool} {δ : Nat → Nat → Nat} {alphabet : List Nat}
+theorem hopcroft_spec_sound {n : Nat} {fin : Nat → Bool} {δ : Nat → Nat → Nat} {alphabet : List Nat}
     (hc : ∀ s, s < n → ∀ c ∈ alphabet, δ s c < n) {s t : Nat} (hs : s < n) (ht : t < n)
     (h : (mooreAbs n fin δ alphabet).getD s 0 = (mooreAbs n fin δ alphabet).getD t 0)
     (w : List Nat) (hw : ∀ c ∈ w, c ∈ alphabet) : fin (w.foldl δ s) = fin (w.foldl δ t) :=
   mooreAbs_sound hc hs ht h w hw
 
 /-- different blocks ⇒ some word over the alphabet distinguishes the states -/
-theorem mooreAbs_complete' {n : Nat} {fin : Nat → Bool} {δ : Nat → Nat → Nat} {alphabet : List Nat}
+theorem hopcroft_spec_complete {n : Nat} {fin : Nat → Bool} {δ : Nat → Nat → Nat} {alphabet : List Nat}
     (hc : ∀ s, s < n → ∀ c ∈ alphabet, δ s c < n) {s t : Nat} (hs : s < n) (ht : t < n)
     (h : (mooreAbs n fin δ alphabet).getD s 0 ≠ (mooreAbs n fin δ alphabet).getD t 0) :
     ∃ w : List Nat, (∀ c ∈ w, c ∈ alphabet) ∧ fin (w.foldl δ s) ≠ fin (w.foldl δ t) :=
@@ -261,7 +221,7 @@ theorem check_minimized_sound {A A' : Automaton} (hc : checkMinimized A A' = tru
     (∀ w, WFs w → A'.accepts w = A.accepts w) ∧
     (∀ s t, s < A'.states.length → t < A'.states.length → s ≠ t → resid A' s ≠ resid A' t) ∧
     (A'.numStates = A'.states.length ∧ A'.initialState < A'.numStates ∧
-      (∀ i st, A'.states[i]? = some st → st.id = i) ∧
+      (∀ i (st : State), A'.states[i]? = some st → st.id = i) ∧
       A'.numFinalStates = (A'.states.filter (·.isFinal)).length) ∧
     (AllReachable A → A'.numStates = nerodeIndex A) := by
   obtain ⟨hA, hA', ⟨h, hh⟩, hd, hcnt⟩ := checkMinimized_spec hc
@@ -326,5 +286,174 @@ theorem check_minimized_sound {A A' : Automaton} (hc : checkMinimized A A' = tru
       exact hdist s t hs ht hne he
     unfold nerodeIndex
     rw [hset, hinj.ncard_image, Set.ncard_coe_finset, Finset.card_range, hn']
+
+/-! ### the specification's own quotient passes the checker -/
+
+/-- T:quotient_passes_check — for EVERY well-formed complete DFA `A` the model's quotient exists
+    (`remap_nodes` does not panic), is accepted by the checker, and has as many states as
+    `moore A` has blocks.  So the hypothesis of `check_minimized_sound` is satisfiable for every
+    `A` (non-vacuity), and the checker is complete for the canonical quotient. -/
+theorem quotient_passes_check {A : Automaton} (h : wfAut A = true) :
+    ∃ Q, quotient A (moore A) = some Q ∧ checkMinimized A Q = true ∧
+      Q.numStates = numBlocks (moore A) :=
+  quotient_passes h
+
+/-- hence a minimal automaton in the sense of the property exists for every `A`, with the number
+    of states given by the Moore partition -/
+theorem minimization_exists {A : Automaton} (h : wfAut A = true) :
+    ∃ Q, (∀ w, WFs w → Q.accepts w = A.accepts w) ∧
+      (∀ s t, s < Q.states.length → t < Q.states.length → s ≠ t → resid Q s ≠ resid Q t) ∧
+      Q.numStates = Set.ncard {L : Set (List Nat) | ∃ s, s < A.states.length ∧ L = resid A s} := by
+  obtain ⟨Q, _, hc, hn⟩ := quotient_passes_check h
+  obtain ⟨h1, h2, _, _⟩ := check_minimized_sound hc
+  exact ⟨Q, h1, h2, by rw [hn, moore_numBlocks h]⟩
+
+/-! ### `Partition::refine_block` (faithful model, `Model/Partition.lean`)
+
+  `window seg h` = `seg[h.start .. h.stop)` = the elements of the block before the call;
+  `RefineSpec p i pr h p' r` (Proofs/Partition) bundles: size and segment length unchanged, the
+  segment is permuted and untouched outside the window of block `i`; no element satisfies `pr` ⇒
+  result `(0, i)` and nothing changes; all do ⇒ `(i, 0)` and nothing changes; otherwise result
+  `(i, old num_blocks)`, block `i` = the `pr`-elements in their old order (its header shrunk), the
+  new block = the other elements (permuted), and every block with a disjoint window keeps its
+  header and its elements. -/
+
+open BasePartition in
+/-- T:refine_block_spec (BasePartition) — block `i` is split exactly by the predicate -/
+theorem base_refine_block_spec (p : BasePartition) (i : Nat) (pr : Nat → Bool) (h : BlockHeader)
+    (hi : p.block[i]? = some h) (hle : h.start ≤ h.stop) (hstop : h.stop ≤ p.segment.length)
+    (hsz : p.segment.length = p.size) :
+    ∃ p' r, p.refineBlock i pr = some (p', r) ∧ RefineSpec p i pr h p' r :=
+  BasePartition.refine_block_spec p i pr h hi hle hstop hsz
+
+open BasePartition in
+/-- T:refine_block_spec (Partition) — as above, and `block_id` becomes the id of the new block
+    exactly for the elements moved to it (`i ≠ 0`: the code guards the update with
+    `b1 != 0 && b2 != 0`, and block 0 is the empty block) -/
+theorem refine_block_spec (p : Partition) (i : Nat) (pr : Nat → Bool) (h : BlockHeader)
+    (hi : p.base.block[i]? = some h) (hle : h.start ≤ h.stop)
+    (hstop : h.stop ≤ p.base.segment.length) (hsz : p.base.segment.length = p.base.size)
+    (hid : ∀ x ∈ window p.base.segment h, x < p.blockId.length) :
+    ∃ q r, p.refineBlock i pr = some (q, r) ∧ RefineSpec p.base i pr h q.base r ∧
+      q.blockId.length = p.blockId.length ∧
+      ∀ x, q.blockId[x]? =
+        if i ≠ 0 ∧ (window p.base.segment h).filter pr ≠ [] ∧
+            x ∈ (window p.base.segment h).filter (fun x => !pr x)
+        then some p.base.numBlocks else p.blockId[x]? :=
+  Partition.refine_block_spec p i pr h hi hle hstop hsz hid
+
+open BasePartition in
+/-- T:refine_block_with_fun_spec — `refine_block_with_fun(i, f, b)` is `refine_block` with the
+    predicate "the block id of `f y` is `b`" (ids read before the update) -/
+theorem refine_block_with_fun_spec (p : Partition) (i : Nat) (f : Nat → Nat) (b : Nat)
+    (h : BlockHeader)
+    (hi : p.base.block[i]? = some h) (hle : h.start ≤ h.stop)
+    (hstop : h.stop ≤ p.base.segment.length) (hsz : p.base.segment.length = p.base.size)
+    (hid : ∀ x ∈ window p.base.segment h, x < p.blockId.length)
+    (hf : ∀ y ∈ window p.base.segment h, f y < p.blockId.length) :
+    ∃ q r, p.refineBlockWithFun i f b = some (q, r) ∧
+      RefineSpec p.base i (fun y => p.blockId.getD (f y) 0 == b) h q.base r ∧
+      q.blockId.length = p.blockId.length ∧
+      ∀ x, q.blockId[x]? =
+        if i ≠ 0 ∧ (window p.base.segment h).filter (fun y => p.blockId.getD (f y) 0 == b) ≠ [] ∧
+            x ∈ (window p.base.segment h).filter (fun y => !(p.blockId.getD (f y) 0 == b))
+        then some p.base.numBlocks else p.blockId[x]? :=
+  Partition.refine_block_with_fun_spec p i f b h hi hle hstop hsz hid hf
+
+/-- a panic of the closure (`block_ids[f(y)]` out of bounds for some element of the block) makes
+    `refine_block_with_fun` panic -/
+theorem refine_block_with_fun_panics (p : Partition) (i : Nat) (f : Nat → Nat) (b : Nat)
+    (hf : ∀ s, p.base.blockElements i = some s → ∃ y ∈ s, p.blockId.length ≤ f y) :
+    p.refineBlockWithFun i f b = none :=
+  Partition.refine_block_with_fun_none p i f b hf
+
+/-! ### non-vacuity -/
+
+/-- five states, all reachable; states 1 and 3 are equivalent although written differently
+    (`a → 4, default → 2` versus `[0,96] → 2, [98,MAX] → 2, default → 4`) -/
+def exA : Automaton :=
+  { numStates := 5, numFinalStates := 1, initialState := 0,
+    states := [
+      { id := 0, isFinal := false, classes := ⟨[⟨97, 97⟩, ⟨98, 98⟩], 0⟩, successor := [1, 3],
+        defaultSuccessor := some 2 },
+      { id := 1, isFinal := false, classes := ⟨[⟨97, 97⟩], 0⟩, successor := [4],
+        defaultSuccessor := some 2 },
+      { id := 2, isFinal := false, classes := ⟨[], 0⟩, successor := [], defaultSuccessor := some 2 },
+      { id := 3, isFinal := false, classes := ⟨[⟨0, 96⟩, ⟨98, MAX_CHAR⟩], 97⟩, successor := [2, 2],
+        defaultSuccessor := some 4 },
+      { id := 4, isFinal := true, classes := ⟨[], 0⟩, successor := [], defaultSuccessor := some 2 } ] }
+
+/-- a minimization of `exA` with a state numbering different from the quotient's (as Hopcroft's
+    block numbering would give): initial state 2, representative of {1,3} = old state 3 -/
+def exA' : Automaton :=
+  { numStates := 4, numFinalStates := 1, initialState := 2,
+    states := [
+      { id := 0, isFinal := true, classes := ⟨[], 0⟩, successor := [], defaultSuccessor := some 3 },
+      { id := 1, isFinal := false, classes := ⟨[⟨0, 96⟩, ⟨98, MAX_CHAR⟩], 97⟩, successor := [3, 3],
+        defaultSuccessor := some 0 },
+      { id := 2, isFinal := false, classes := ⟨[⟨97, 97⟩, ⟨98, 98⟩], 0⟩, successor := [1, 1],
+        defaultSuccessor := some 3 },
+      { id := 3, isFinal := false, classes := ⟨[], 0⟩, successor := [], defaultSuccessor := some 3 } ] }
+
+example : wfAut exA = true := by decide +kernel
+example : moore exA = [0, 1, 2, 1, 3] := by decide +kernel
+example : alphabetOf2 exA exA' = [0, 97, 98, 99] := by decide +kernel
+
+/-- the hypothesis of `check_minimized_sound` is satisfiable by a result that is not the
+    model's own quotient -/
+theorem ex_check : checkMinimized exA exA' = true := by decide +kernel
+
+/-- the checker rejects the unminimized automaton itself (states 1 and 3 are equivalent) … -/
+example : checkMinimized exA exA = false := by decide +kernel
+/-- … and a minimal automaton for another language (state 0 made final) -/
+example : checkMinimized exA
+    { exA' with numFinalStates := 2,
+                states := exA'.states.modify 2 (fun s => { s with isFinal := true }) } = false := by
+  decide +kernel
+
+theorem ex_reachable : AllReachable exA := by
+  have wf : ∀ l, goodString l = true → WFs l := fun l h => (goodString_iff l).1 h
+  apply allReachable_of_runD (by decide +kernel)
+  intro s hs
+  have hs' : s < 5 := hs
+  rcases s with _ | _ | _ | _ | _ | s
+  · exact ⟨[], wf _ (by decide), by decide +kernel⟩
+  · exact ⟨[97], wf _ (by decide), by decide +kernel⟩
+  · exact ⟨[0], wf _ (by decide), by decide +kernel⟩
+  · exact ⟨[98], wf _ (by decide), by decide +kernel⟩
+  · exact ⟨[97, 97], wf _ (by decide), by decide +kernel⟩
+  · omega
+
+/-- all four clauses of `check_minimized_sound` on the example; in particular the language of
+    `exA` has Myhill–Nerode index 4 -/
+example : nerodeIndex exA = 4 := ((check_minimized_sound ex_check).2.2.2 ex_reachable).symm
+
+/-- `refine_block` on `Partition::new(6)`, block 1, "even": `[0,2,4]` stay in order, the odd
+    elements end up permuted (`[3,1,5]`) in the new block 2; all hypotheses of `refine_block_spec`
+    hold for this call -/
+example : (Partition.new 6).refineBlock 1 (fun x => x % 2 == 0) =
+    some (⟨⟨6, [⟨0, 0⟩, ⟨0, 3⟩, ⟨3, 6⟩], [0, 2, 4, 3, 1, 5]⟩, [1, 2, 1, 2, 1, 2]⟩, (1, 2)) := by
+  decide
+example : ∃ q r, (Partition.new 6).refineBlock 1 (fun x => x % 2 == 0) = some (q, r) ∧
+    q.blockId.length = 6 :=
+  let ⟨q, r, h1, _, h3, _⟩ := refine_block_spec (Partition.new 6) 1 (fun x => x % 2 == 0) ⟨0, 6⟩
+    (by decide) (by decide) (by decide) (by decide) (by decide)
+  ⟨q, r, h1, h3⟩
+
+/-- the model's quotient of `exA`: representative of {1,3} = state 1 (the smallest) -/
+def exQ : Automaton :=
+  { numStates := 4, numFinalStates := 1, initialState := 0,
+    states := [
+      { id := 0, isFinal := false, classes := ⟨[⟨97, 97⟩, ⟨98, 98⟩], 0⟩, successor := [1, 1],
+        defaultSuccessor := some 2 },
+      { id := 1, isFinal := false, classes := ⟨[⟨97, 97⟩], 0⟩, successor := [3],
+        defaultSuccessor := some 2 },
+      { id := 2, isFinal := false, classes := ⟨[], 0⟩, successor := [], defaultSuccessor := some 2 },
+      { id := 3, isFinal := true, classes := ⟨[], 0⟩, successor := [], defaultSuccessor := some 2 } ] }
+
+/-- the quotient of the example, concretely -/
+example : quotient exA (moore exA) = some exQ ∧ checkMinimized exA exQ = true ∧
+    exQ.numStates = numBlocks (moore exA) := by
+  refine ⟨by decide +kernel, by decide +kernel, by decide +kernel⟩
 
 end Smt.C04
